@@ -697,7 +697,13 @@ class CallMixin:
             st.put(recv, {"__kind__": "list", "items": stor["items"] + (args[0],)})
             return [("val", None, st)]
         if name == "extend":
-            st.put(recv, {"__kind__": "list", "items": stor["items"] + tuple(self.concrete_items(args[0], st))})
+            a0 = args[0]
+            if isinstance(a0, Ref) and st.get(a0).get("__kind__") not in ("list", "tuple", "set"):
+                if stor["items"]:
+                    raise Unsupported("extend of a non-empty list with a symbolic list")
+                st.put(recv, dict(st.get(a0)))   # [] extended by a symbolic / generic list IS that list (storages are values)
+                return [("val", None, st)]
+            st.put(recv, {"__kind__": "list", "items": stor["items"] + tuple(self.concrete_items(a0, st))})
             return [("val", None, st)]
         if name == "copy":
             return [("val", st.alloc("list", stor), st)]
